@@ -815,6 +815,15 @@ func (vc *VC) closedWorld(v Term, t types.Type) {
 	if t == nil {
 		return
 	}
+	// an interface represented by the sort of another one (alias): the closed
+	// world is that of the representing interface
+	if n, ok := types.Unalias(t).(*types.Named); ok && n.Obj().Pkg() != nil {
+		if al, ok := vc.w.aliases[n.Obj().Pkg().Path()+"."+n.Obj().Name()]; ok {
+			if at := vc.w.lookupType(al); at != nil {
+				t = at
+			}
+		}
+	}
 	ti, ok := vc.underlying(t).(*types.Interface)
 	if !ok || ti.NumMethods() == 0 {
 		return
